@@ -194,7 +194,8 @@ def judge(ctx: Ctx, rec: dict, dev: int, source: str, reported: set) -> bool:
         for n in d0:
             for k, v in d0[n].items():
                 w = d1[n][k]
-                if (LOCAL_DIR not in v and w != v) or (LOCAL_DIR in v and w == v) or LOCAL_DIR in w:
+                # exactly the rewrite: escaping and everything else of the value stay as in the plain dictionary
+                if w != v.replace(LOCAL_DIR, NEW_DIR):
                     bad = True
     if bad:
         ok = False
@@ -388,6 +389,27 @@ def run(ctx: Ctx) -> None:
     if drift:
         print(f"[C35] note: the real Config differs from the model Config.tla on {len(drift)} cases where the property "
               f"itself holds (as-built drift), e.g. {json.dumps(drift[0])[:600]}")
+
+    # ---- 3b. values that are rewritten AND carry literal dollars: the forwarded dictionary must read back as the
+    #          original configuration with the directory replaced (what a sub-scheduler receives)
+    from redun.config import Config as _Config
+
+    for n, val in enumerate([LOCAL_DIR + "/bin/run --price cost$$5", "a$$" + LOCAL_DIR + "$${HOME}", LOCAL_DIR + LOCAL_DIR + "$$$$",
+                             "x " + LOCAL_DIR + "/y 100%% $$(date)"]):
+        c0 = _Config()
+        c0.read_string("[backend]\ndb_uri = sqlite:///" + LOCAL_DIR + "/redun.db\n[scheduler]\nstartup = " + val + "\nplain = p$$q\n")
+        want = [{"name": sct["name"], "opts": [[k, T(S(v).replace(LOCAL_DIR, NEW_DIR))] for k, v in sct["opts"]]}
+                for sct in view_of(c0)]
+        ctx.count_eval()
+        try:
+            got = view_of(_Config(config_dict=c0.get_config_dict(replace_config_dir=NEW_DIR)))
+        except Exception as e:  # noqa
+            got = f"{type(e).__name__}: {e}"
+        if got != want:
+            report(ctx, f"Config(config_dict=c.get_config_dict(replace_config_dir={NEW_DIR!r})) must read back as the configuration with "
+                        f"{LOCAL_DIR!r} replaced; startup = {val!r}: expected {as_map(want)}, got {as_map(got) if isinstance(got, list) else got}",
+                   {"source": "rewrite-and-dollar", "cfg": {"defaults": [], "sections": [
+                       {"name": T("scheduler"), "opts": [[T("startup"), T(val)]]}]}, "what": "replace"})
 
     # ---- 4. the call site: subrun forwards get_config_dict(replace_config_dir=".") into Config() --
     from redun.config import Config
